@@ -97,14 +97,23 @@ def generic_rotation_spec():
     return st.fixed_dictionaries({"k": st.just("q"), "q": quat})
 
 
+def _flush(M, tiny=1e-100):
+    """Entries below 1e-100 in magnitude are set to exactly 0: matrix entries in the
+    denormal range make 1/(slip invariant) overflow inside the solver, a region no caller
+    can produce and that is excluded from every property domain here (DESIGN.md section 5)."""
+    M = np.array(M, dtype=float)
+    M[np.abs(M) < tiny] = 0.0
+    return M
+
+
 def rot(spec):
     k = spec["k"]
     if k == "q":
-        return quat_to_matrix(spec["q"])
+        return _flush(quat_to_matrix(spec["q"]))
     if k == "ax":
         return AXIS24[spec["i"]].copy()
     if k == "near":
-        return AXIS24[spec["i"]] @ axis_angle_matrix(spec["axis"], 10.0 ** (-spec["e"]))
+        return _flush(AXIS24[spec["i"]] @ axis_angle_matrix(spec["axis"], 10.0 ** (-spec["e"])))
     raise ValueError(k)
 
 
@@ -255,7 +264,7 @@ def volumes(spec, n):
 
 def velgrad_spec(allow_trace=True):
     """3x3 velocity gradient families, each conjugated by a rotation."""
-    fam = st.sampled_from(["simple", "pure", "axi_c", "axi_e", "general", "raw"])
+    fam = st.sampled_from(["simple", "pure", "axi_c", "axi_e", "general", "raw", "spin"])
     return st.fixed_dictionaries(
         {
             "fam": fam,
@@ -286,6 +295,13 @@ def velgrad(spec):
         w = spec["w"]
         W = np.array([[0, -w[2], w[1]], [w[2], 0, -w[0]], [-w[1], w[0], 0]])
         L = D + W
+    elif fam == "spin":
+        # rigid-body rotation: zero strain rate, non-zero vorticity
+        w = np.asarray(spec["w"], dtype=float)
+        if not np.any(w):
+            w = np.array([0.0, 0.0, 1.0])
+        L = np.array([[0, -w[2], w[1]], [w[2], 0, -w[0]], [-w[1], w[0], 0]])
+        return L  # exactly skew: no conjugation (keeps D == 0 exactly), no trace
     else:
         L = np.asarray(spec["raw"], dtype=float).reshape(3, 3)
         L = L - np.trace(L) / 3 * np.eye(3)
@@ -293,7 +309,7 @@ def velgrad(spec):
     L = Q @ L @ Q.T
     if spec["use_tr"]:
         L = L + spec["tr"] * np.eye(3)
-    return L
+    return _flush(L)
 
 
 def normalise_velgrad(L):
